@@ -6,6 +6,7 @@ use vstd::arithmetic::div_mod::*;
 use crate::speclib::*;
 use crate::speclib_bits::*;
 use crate::l0_prim::*;
+use crate::l0_corespec::*;
 use crate::l1_choice::*;
 use crate::l1_limb::*;
 use crate::l2_core::*;
@@ -13,10 +14,6 @@ use crate::l2_shift::*;
 use crate::l3_divlimb::*;
 verus! {
 
-// core integer method without a vstd specification (assumed; belongs next to the other core specs of speclib.rs)
-pub assume_specification [u32::div_ceil] (a: u32, b: u32) -> (r: u32)
-    requires b != 0
-    ensures r as int == (a as int + b as int - 1) / (b as int);
 
 // ---------------------------------------------------------------- limb-shift lemmas (shl_limb_vartime / shr_limb_vartime)
 
@@ -570,6 +567,44 @@ proof fn lemma_knuth_iter_vt(xb: Seq<Limb>, xa: Seq<Limb>, xn: Seq<Limb>, h: int
     lemma_knuth_rem_bound(xb, h, k, yc, yv, qt);
 }
 
+// ---------------------------------------------------------------- rem2k_vartime
+
+/// reduction modulo 2^(64*idx + base): keep idx limbs and the low `base` bits of limb idx
+proof fn lemma_val_mod_pow2(s: Seq<Limb>, n: nat, idx: nat, base: nat)
+    requires idx < n, base < 64
+    ensures p2(64 * idx + base) == bp(idx) * p2(base),
+        val(s, n) % p2(64 * idx + base) == val(s, idx) + (s[idx as int].0 as int % p2(base)) * bp(idx)
+{
+    let pb = p2(base); let pi = bp(idx); let m = pi * pb;
+    let pc = p2((64 - base) as nat);
+    lemma_pow2_pos(base); lemma_pow2_pos((64 - base) as nat); lemma_pow2_64();
+    lemma_pow2_adds(64 * idx, base);
+    lemma_bp_pow2(idx);
+    lemma_pow2_adds((64 - base) as nat, base);
+    assert(pc * pb == B());
+    lemma_bp_succ(idx);
+    assert(m > 0) by (nonlinear_arith) requires m == pi * pb, pi > 0, pb > 0;
+    // the limbs above idx contribute a multiple of m
+    lemma_tv_factor(s, idx + 1, n);
+    let hh = tvq(s, idx + 1, n);
+    assert(val(s, n) == val(s, idx + 1) + bp(idx + 1) * hh);
+    assert(bp(idx + 1) * hh == m * (pc * hh)) by (nonlinear_arith) requires bp(idx + 1) == B() * pi, pc * pb == B(), m == pi * pb;
+    lemma_mod_multiples_vanish(pc * hh, val(s, idx + 1), m);
+    // limb idx = pb * qd + rd
+    let a = s[idx as int].0 as int;
+    let qd = a / pb; let rd = a % pb;
+    lemma_fundamental_div_mod(a, pb);
+    lemma_mod_bound(a, pb);
+    assert(val(s, idx + 1) == val(s, idx) + a * pi);
+    assert(a * pi == m * qd + rd * pi) by (nonlinear_arith) requires a == pb * qd + rd, m == pi * pb;
+    lemma_mod_multiples_vanish(qd, val(s, idx) + rd * pi, m);
+    lemma_val_bound(s, idx);
+    assert(rd * pi <= (pb - 1) * pi) by (nonlinear_arith) requires rd <= pb - 1, pi > 0;
+    assert((pb - 1) * pi == m - pi) by (nonlinear_arith) requires m == pi * pb;
+    assert(rd * pi >= 0) by (nonlinear_arith) requires rd >= 0, pi > 0;
+    lemma_small_mod((val(s, idx) + rd * pi) as nat, m as nat);
+}
+
 //@@ subst \b(Self|Uint)::(ZERO|ONE|MAX|BITS|LOG2_BITS)\b(?!\() => \1::\2()
 //@@ subst \bUint::<(\w+)>::(ZERO|ONE|MAX|BITS)\b(?!\() => Uint::<\1>::\2()
 //@@ fn src/uint/div.rs | impl<const LIMBS: usize> Uint<LIMBS> | shl_limb_vartime | body | props C02 C11
@@ -1005,17 +1040,41 @@ pub const fn div_rem_vartime<const RHS_LIMBS: usize>(
     }
 }
 //@@ end
-//@@ fn src/uint/div.rs | impl<const LIMBS: usize> Uint<LIMBS> | rem_vartime | stub | props C02 C11 C15
+//@@ fn src/uint/div.rs | impl<const LIMBS: usize> Uint<LIMBS> | rem_vartime | body | props C02 C11 C15
 impl<const LIMBS: usize> Uint<LIMBS> {
-#[verifier::external_body]
 pub const fn rem_vartime(&self, rhs: &NonZero<Self>) -> (ret__: Self)
 //@+
     requires 1 <= LIMBS < 0x400_0000, rhs.0.v() != 0
     ensures ret__.v() == self.v() % rhs.0.v()
 //@-
 {
-    unimplemented!()
+        self.div_rem_vartime(rhs).1
+    }
 }
+//@@ end
+//@@ fn src/uint/div.rs | impl<const LIMBS: usize> Uint<LIMBS> | wrapping_div_vartime | body | props C02 C11 C15
+impl<const LIMBS: usize> Uint<LIMBS> {
+pub const fn wrapping_div_vartime<const RHS: usize>(&self, rhs: &NonZero<Uint<RHS>>) -> (ret__: Self)
+//@+
+    requires 1 <= LIMBS < 0x400_0000, 1 <= RHS < 0x400_0000, rhs.0.v() != 0
+    ensures ret__.v() == self.v() / rhs.0.v()
+//@-
+{
+        self.div_rem_vartime(rhs).0
+    }
+}
+//@@ end
+//@@ fn src/uint/div.rs | impl<const LIMBS: usize> Uint<LIMBS> | wrapping_rem_vartime | body | props C02 C11 C15
+impl<const LIMBS: usize> Uint<LIMBS> {
+pub const fn wrapping_rem_vartime(&self, rhs: &Self) -> (ret__: Self)
+//@+
+    requires 1 <= LIMBS < 0x400_0000, rhs.v() != 0
+    ensures ret__.v() == self.v() % rhs.v()
+//@-
+{
+        let nz_rhs = rhs.to_nz().expect("non-zero divisor");
+        self.rem_vartime(&nz_rhs)
+    }
 }
 //@@ end
 //@@ fn src/uint/div.rs | impl<const LIMBS: usize> Uint<LIMBS> | rem_wide_vartime | stub | props C02 C11
@@ -1031,17 +1090,82 @@ pub const fn rem_wide_vartime(lower_upper: (Self, Self), rhs: &NonZero<Self>) ->
 }
 }
 //@@ end
-//@@ fn src/uint/div.rs | impl<const LIMBS: usize> Uint<LIMBS> | rem2k_vartime | stub | props C02 C11
+//@@ fn src/uint/div.rs | impl<const LIMBS: usize> Uint<LIMBS> | rem2k_vartime | body | props C02 C11
 impl<const LIMBS: usize> Uint<LIMBS> {
-#[verifier::external_body]
 pub const fn rem2k_vartime(&self, k: u32) -> (ret__: Self)
 //@+
     requires 1 <= LIMBS < 0x400_0000
     ensures ret__.v() == self.v() % p2(k as nat)
 //@-
 {
-    unimplemented!()
-}
+        let highest = (LIMBS - 1) as u32;
+        let index = k / Limb::BITS;
+        let le = ConstChoice::from_u32_le(index, highest);
+        let limb_num = le.select_u32(highest, index) as usize;
+        let base = k % Limb::BITS;
+//@+
+    assert((1u64 << base) >= 1) by (bit_vector) requires base < 64;
+//@-
+        let mask = (1 << base) - 1;
+        let mut out = *self;
+        let outmask = Limb(out.limbs[limb_num].0 & mask);
+        out.limbs[limb_num] = Limb::select(out.limbs[limb_num], outmask, le);
+//@+
+    let ghost out0 = out.limbs@;
+    let ghost a = self.limbs@[limb_num as int].0;
+    proof {
+        let pb = p2(base as nat);
+        let hi = a >> base;
+        assert(a & mask == a - (hi << base)) by (bit_vector) requires mask == (1u64 << base) - 1, hi == a >> base, base < 64;
+        assert(hi << base == hi << (base as u64)) by (bit_vector) requires base < 64;
+        lemma_u64_shr_div(a, base);
+        lemma_pow2_pos(base as nat);
+        lemma_fundamental_div_mod(a as int, pb);
+        lemma_mod_bound(a as int, pb);
+        assert(pb * (hi as int) == hi as int * pb) by (nonlinear_arith);
+        assert(hi as int * pb <= a as int) by (nonlinear_arith) requires a as int == pb * (hi as int) + a as int % pb, 0 <= a as int % pb;
+        vstd::bits::lemma_u64_shl_is_mul(hi, base as u64);
+        assert((a & mask) as int == a as int % pb);
+        assert(forall|j: int| 0 <= j < LIMBS && j != limb_num ==> out0[j] == self.limbs@[j]);
+        assert(out0[limb_num as int].0 as int == (if le.t() { a as int % p2(base as nat) } else { a as int }));
+    }
+//@-
+        // TODO: this is not constant-time.
+        let mut i = limb_num + 1;
+        while i < LIMBS
+//@+
+    invariant limb_num < i <= LIMBS,
+        forall|j: int| 0 <= j < limb_num ==> out.limbs@[j] == self.limbs@[j],
+        out.limbs@[limb_num as int] == out0[limb_num as int],
+        forall|j: int| limb_num < j < i ==> out.limbs@[j].0 == 0,
+        forall|j: int| i <= j < LIMBS ==> out.limbs@[j] == self.limbs@[j],
+    decreases LIMBS - i,
+//@-
+{
+            out.limbs[i] = Limb::ZERO;
+            i += 1;
+        }
+//@+
+    proof {
+        let idx = limb_num as nat; let n = LIMBS as nat;
+        if le.t() {
+            assert(k as nat == 64 * idx + base as nat);
+            lemma_val_mod_pow2(self.limbs@, n, idx, base as nat);
+            lemma_val_hi_zero(out.limbs@, idx + 1, n);
+            lemma_val_ext(out.limbs@, self.limbs@, idx);
+            assert(val(out.limbs@, idx + 1) == val(out.limbs@, idx) + out.limbs@[idx as int].0 as int * bp(idx));
+        } else {
+            assert(out.limbs@ =~= self.limbs@);
+            lemma_val_bound(self.limbs@, n);
+            lemma_bp_pow2(n);
+            assert(k as nat >= 64 * n);
+            if k as nat > 64 * n { lemma_pow2_strictly_increases(64 * n, k as nat); }
+            lemma_small_mod(self.v() as nat, p2(k as nat) as nat);
+        }
+    }
+//@-
+        out
+    }
 }
 //@@ end
 
